@@ -506,6 +506,12 @@ def decide(prop, tier, seed, gate, my_thms, known, t0, replay):
                             own.setdefault(i, []).append(f'semaphore {key}: value {val} after all callers finished, limit {case["L"]} (capacity leaked or over-released)')
                 elif rec[0] == 'acquired' and rec[2] == -1:
                     own.setdefault(i, []).append(f'semaphore {rec[1]}: a slot was acquired by a task that belongs to no caller')
+                elif rec[0] == 'end' and str(rec[3]).startswith('error:'):
+                    # a call ends in one of: the function ran (with a slot, or without one under lax after an acquisition
+                    # timeout) and its outcome came back, TimeoutError, or the caller's own cancellation - the function of
+                    # these cases raises nothing but ValueError, so any other exception came out of the semaphore machinery
+                    own.setdefault(i, []).append(f'semaphore {rec[1]}: caller {rec[2]} got {rec[3][6:]} out of the decorator: the function was neither run '
+                                                 f'nor refused with TimeoutError')
         for i, case in enumerate(cases):
             if i in own:
                 violations.append((case, own[i][:3], None, None))
